@@ -89,6 +89,7 @@ class TriggerHandler:
         self.__old_thread_trace = None
         self.__old_sys_trace = None
         self.__installed = False
+        self.__shutdown = False
         self._push_service = push_service
         self._tp_config: List[Trigger] = []
         self._config = config
@@ -146,6 +147,14 @@ class TriggerHandler:
             return self.trace_call
 
     def _trace_call(self, frame: FrameType, event: str, arg):
+        if self.__shutdown:
+            # shutdown can only reset the trace function of the thread it is called on, every other thread that was
+            # started while we were active still has us as its trace function: take no more actions, and give these
+            # threads what they would have had without us
+            if sys.gettrace() == self.trace_call:
+                sys.settrace(self.__old_thread_trace)
+            return None
+
         event, file, line, function = self.location_from_event(event, frame)
         trigger_context = TriggerContext(self._config, self._push_service, frame, event, arg)
 
@@ -234,6 +243,7 @@ class TriggerHandler:
 
         Reset the settrace to the previous values.
         """
+        self.__shutdown = True
         if not self.__installed:
             # we did not install our trace functions (NO_TRACE), so there is nothing to put back
             return
